@@ -574,7 +574,7 @@ def build_raw(spec):
             bname = dc["name"] + "_bnds"
             dattrs["bounds"] = bname
             btarget = coords if dc.get("bounds_as") == "coord" else data_vars
-            btarget[bname] = ([dc["dim"], "nv"], numpy.array(dc["bounds"], dtype=numpy.float64), {})
+            btarget[bname] = ([dc["dim"], "zbnd"], numpy.array(dc["bounds"], dtype=numpy.float64), {})
         target = coords if (dc.get("as", "coord") == "coord" or dc["name"] == dc["dim"]) else data_vars
         target[dc["name"]] = ([dc["dim"]], numpy.array(dc["values"], dtype=numpy.float64), dattrs)
 
